@@ -68,6 +68,8 @@ func Lib() *ty.Env {
 	e.Decls[xb].Under.Blanks = map[int]string{0: "[0]func()", 2: "int32", 5: "struct{}"}
 	xc := add("XC", "ext", ty.St(f("a", b("string")), f("b", b("int8")), f("C", b("int8"))), true) // 35
 	e.Decls[xc].Under.Blanks = map[int]string{0: "int32", 1: "bool"}
+	// a non-comparable struct holding a NAMED float: -0 and +0 are Equal there and must hash alike
+	add("SNF", "", ty.St(f("T", ty.N(2)), f("S", ty.Sl(b("string")))), false) // 36
 	return e
 }
 
@@ -162,6 +164,22 @@ func NewCorpus(rng *rand.Rand, thorough bool, n2, extra int) *Corpus {
 	add(ty.St(ty.F("A", ty.B("int")), ty.F("B", ty.B("string"))))
 	add(ty.St(ty.F("A", ty.Sl(ty.B("int"))), ty.F("B", ty.P(ty.N(5))), ty.F("C", ty.B("float64"))))
 	add(ty.St())
+	// shapes every tier must contain: maps whose values are arrays of slices / pointers / maps (the copy of
+	// such an array is built in a local and stored; values under different keys must not share memory),
+	// named float types inside non-comparable values, unsigned 64-bit leaves behind components
+	for _, t := range []*ty.Ty{
+		ty.M(ty.B("string"), ty.Ar(2, ty.Sl(ty.B("int")))),
+		ty.M(ty.B("int8"), ty.Ar(1, ty.Sl(ty.B("string")))),
+		ty.M(ty.B("string"), ty.Ar(2, ty.P(ty.B("int")))),
+		ty.M(ty.B("string"), ty.Ar(2, ty.M(ty.B("string"), ty.B("int")))),
+		ty.M(ty.B("string"), ty.Ar(2, ty.Ar(2, ty.Sl(ty.B("int"))))),
+		ty.P(ty.St(ty.F("M", ty.M(ty.B("string"), ty.Ar(2, ty.Sl(ty.B("int"))))), ty.F("N", ty.B("int")))),
+		ty.Sl(ty.P(ty.N(2))), ty.Sl(ty.Sl(ty.N(2))), ty.P(ty.St(ty.F("T", ty.N(2)), ty.F("S", ty.Sl(ty.B("string"))))),
+		ty.P(ty.St(ty.F("U", ty.B("uint64")), ty.F("V", ty.B("uint8")), ty.F("W", ty.M(ty.B("uint64"), ty.B("bool"))))),
+		ty.M(ty.B("bool"), ty.Sl(ty.B("string"))),
+	} {
+		add(t)
+	}
 	for i := 0; i < extra; i++ {
 		add(c.Random(rng, 3))
 	}
